@@ -69,10 +69,8 @@ Theorem eq_never_true_for_mixed_quantities : forall fl a b same,
 Proof.
   intros fl a b same H1 H2 Ha Hb Hm Hp Hj. unfold eq_py.
   destruct (subclass T (od b) (oq b) (od a) (oq a)).
-  - apply (add_refused_quantities fl b a); try assumption.
-    + rewrite mixed_sym; assumption.
-    + rewrite pr_pair_sym; assumption.
-    + rewrite jw_pair_sym; assumption.
+  - apply (add_refused_quantities fl b a); try assumption;
+      try (rewrite mixed_sym; assumption); try (rewrite pr_pair_sym; assumption); try (rewrite jw_pair_sym; assumption).
   - apply (add_refused_quantities fl a b); assumption.
 Qed.
 
